@@ -42,9 +42,23 @@ def _L_job(job):
     for adj in _class_graphs(n, cid, tier, seed):
         variants.append((adj, None))
     # seeded basis changes of the representative (generators never matter)
-    nb = 1 if tier == "quick" else 3
+    nb = 1 if tier == "quick" else (3 if n <= 5 else 5)
     for _ in range(nb):
         variants.append((variants[0][0], spec.random_invertible(n, rnd)))
+    if tier == "thorough" and n <= 5:
+        # every elementary generator change of the canonical basis: swap two generators, multiply one into another
+        for i in range(n):
+            for j in range(n):
+                if i == j:
+                    continue
+                T = [[1 if a == b else 0 for b in range(n)] for a in range(n)]
+                T[i][j] = 1
+                variants.append((variants[0][0], T))
+                if i < j:
+                    P = [[1 if a == b else 0 for b in range(n)] for a in range(n)]
+                    P[i][i] = P[j][j] = 0
+                    P[i][j] = P[j][i] = 1
+                    variants.append((variants[0][0], P))
     for adj, B in variants:
         def fn():
             ctx = Ctx.cur
@@ -193,7 +207,7 @@ def run(tier, seed):
     ck.encode("lc_classes.determine_lc_class", "lc_classes.determine_lc_class2..6", "lc_classes.count_identity_structures",
               "lc_classes.LCClassN.id/_from_id/get_graph", "stabilizer.Stabilizer.is_qubit_entangled", "stabilizer.Stabilizer.expand",
               "linear_index.*")
-    ck.bounds += ["L: every class id of n=2..6, representative graph + table graphs (quick: representative + seeded 1-2 table graphs; thorough: all distinct), ALL 6^n local-Clifford layers per graph symbolically; seeded invertible basis changes (quick 1, thorough 3 per class)",
+    ck.bounds += ["L: every class id of n=2..6, representative graph + table graphs (quick: representative + seeded 1-2 table graphs; thorough: all distinct), ALL 6^n local-Clifford layers per graph symbolically; seeded invertible basis changes (quick 1 per class; thorough 3-5 per class plus, for n<=5, every elementary generator swap / product)",
                   "F3: n=2,3 every valid tableau (all groups x all bases), signs poisoned",
                   "T: all graphs on n<=5 vertices (quick: + seeded 3000 six-vertex graphs; thorough: all 32768)",
                   "S: all K representatives, each against all others in one query"]
